@@ -142,6 +142,18 @@ def run_C14(tier, seed):
     return res
 
 
+def run_C15(tier, seed):
+    q = Q(tier)
+    res = [stages.cases_stage("C15", "MC_Codec", tier, seed, invariants="C15 Total")]
+    # every proof the prover can output: length formula, decode(encode(p)) == p, encode(decode(b)) == b
+    res.append(stages.api_stage("C15", "roundtrip", tier, seed))
+    return res
+
+
+def run_C17(tier, seed):
+    return [stages.cases_stage("C17", "MC_Constructors", tier, seed, invariants="Documented")]
+
+
 def run_C09(tier, seed):
     q = Q(tier)
     res = [stages.api_stage("C09", "recover", tier, seed, filter_fn=lambda s: all(m["mut"]["kind"] == "none" for m in s["sc"]["members"]))]
@@ -168,6 +180,8 @@ CHECKS = {
     "C05": {"run": run_C05, "level": "model_checking"},
     "C08": {"run": run_C08, "level": "model_checking"},
     "C13": {"run": run_C13, "level": "model_checking"},
+    "C15": {"run": run_C15, "level": "model_checking"},
+    "C17": {"run": run_C17, "level": "model_checking"},
     "C14": {"run": run_C14, "level": "model_checking"},
     "C06": {"run": run_C06, "level": "model_checking"},
     "C07": {"run": run_C07, "level": "model_checking"},
@@ -182,6 +196,8 @@ def replay(rep):
         return stages.replay_api(rep)
     if rep["kind"] == "trace":
         return stages.replay_trace(rep)
+    if rep["kind"] == "case":
+        return stages.replay_case(rep)
     raise vlib.ToolError("unknown replay kind " + rep["kind"])
 
 
